@@ -458,4 +458,222 @@ def x_New : List String := [
   "p := &Parser{ s: scanner.MustNewScanner(abs, src), api: &ast.AST{Filename: abs}, node: make(map[token.Token]*ast.TokenNode), }",
   "return p"]
 
+/-- body of `Parser.curTokenIs` in tools/goctl/pkg/parser/api/parser/parser.go (literals verbatim) -/
+def x_Parser_curTokenIs : List String := [
+  "range _, v := expected {",
+  "typeswitch val := v.(type) {",
+  "case token.Type:",
+  "if p.curTok.Type == val {",
+  "return true",
+  "}",
+  "case string:",
+  "if p.curTok.Text == val {",
+  "return true",
+  "}",
+  "}",
+  "}",
+  "return false"]
+
+/-- body of `Parser.curTokenIsNot` in tools/goctl/pkg/parser/api/parser/parser.go (literals verbatim) -/
+def x_Parser_curTokenIsNot : List String := [
+  "return p.curTok.Type != expected"]
+
+/-- body of `Parser.curTokenIsNotEof` in tools/goctl/pkg/parser/api/parser/parser.go (literals verbatim) -/
+def x_Parser_curTokenIsNotEof : List String := [
+  "return p.curTokenIsNot(token.EOF)"]
+
+/-- body of `Parser.peekTokenIsNot` in tools/goctl/pkg/parser/api/parser/parser.go (literals verbatim) -/
+def x_Parser_peekTokenIsNot : List String := [
+  "range _, v := expected {",
+  "typeswitch val := v.(type) {",
+  "case token.Type:",
+  "if p.peekTok.Type == val {",
+  "return false",
+  "}",
+  "case string:",
+  "if p.peekTok.Text == val {",
+  "return false",
+  "}",
+  "}",
+  "}",
+  "return true"]
+
+/-- body of `Parser.advanceIfPeekTokenIs` in tools/goctl/pkg/parser/api/parser/parser.go (literals verbatim) -/
+def x_Parser_advanceIfPeekTokenIs : List String := [
+  "if p.expectPeekToken(expected...) {",
+  "if !p.nextToken() {",
+  "return false",
+  "}",
+  "return true",
+  "}",
+  "return false"]
+
+/-- body of `Parser.notExpectPeekToken` in tools/goctl/pkg/parser/api/parser/parser.go (literals verbatim) -/
+def x_Parser_notExpectPeekToken : List String := [
+  "if !p.peekTokenIsNot(expected...) {",
+  "return false",
+  "}",
+  "var expectedString []string",
+  "range _, v := expected {",
+  "expectedString = append(expectedString, fmt.Sprintf(\"'%s'\", v))",
+  "}",
+  "var got string",
+  "if p.peekTok.Type == token.ILLEGAL {",
+  "got = p.peekTok.Text",
+  "} else {",
+  "got = p.peekTok.Type.String()",
+  "}",
+  "var err error",
+  "if p.peekTok.Type == token.EOF {",
+  "position := p.curTok.Position",
+  "position.Column = position.Column + len(p.curTok.Text)",
+  "err = fmt.Errorf( \"%s syntax error: expected %s, got '%s'\", position, strings.Join(expectedString, \" | \"), got)",
+  "} else {",
+  "err = fmt.Errorf( \"%s syntax error: expected %s, got '%s'\", p.peekTok.Position, strings.Join(expectedString, \" | \"), got)",
+  "}",
+  "p.errors = append(p.errors, err)",
+  "return true"]
+
+/-- body of `Parser.notExpectPeekTokenGotComment` in tools/goctl/pkg/parser/api/parser/parser.go (literals verbatim) -/
+def x_Parser_notExpectPeekTokenGotComment : List String := [
+  "if actual == nil {",
+  "return false",
+  "}",
+  "var expectedString []string",
+  "range _, v := expected {",
+  "typeswitch val := v.(type) {",
+  "case token.Token:",
+  "expectedString = append(expectedString, fmt.Sprintf(\"'%s'\", val.Text))",
+  "default:",
+  "expectedString = append(expectedString, fmt.Sprintf(\"'%s'\", v))",
+  "}",
+  "}",
+  "got := actual.Comment.Type.String()",
+  "p.errors = append(p.errors, fmt.Errorf( \"%s syntax error: expected %s, got '%s'\", p.peekTok.Position, strings.Join(expectedString, \" | \"), got))",
+  "return true"]
+
+/-- body of `Parser.expectIdentError` in tools/goctl/pkg/parser/api/parser/parser.go (literals verbatim) -/
+def x_Parser_expectIdentError : List String := [
+  "var expectedString []string",
+  "range _, v := expected {",
+  "expectedString = append(expectedString, fmt.Sprintf(\"'%s'\", v))",
+  "}",
+  "p.errors = append(p.errors, fmt.Errorf( \"%s syntax error: expected %s, got '%s'\", tok.Position, strings.Join(expectedString, \" | \"), tok.Type.String()))"]
+
+/-- body of `isNil` in tools/goctl/pkg/parser/api/parser/parser.go (literals verbatim) -/
+def x_isNil : List String := [
+  "if v == nil {",
+  "return true",
+  "}",
+  "vo := reflect.ValueOf(v)",
+  "if vo.Kind() == reflect.Ptr {",
+  "return vo.IsNil()",
+  "}",
+  "return false"]
+
+/-- body of `Parser.appendStmt` in tools/goctl/pkg/parser/api/parser/parser.go (literals verbatim) -/
+def x_Parser_appendStmt : List String := [
+  "p.api.Stmts = append(p.api.Stmts, stmt...)"]
+
+/-- body of `Parser.hasNoErrors` in tools/goctl/pkg/parser/api/parser/parser.go (literals verbatim) -/
+def x_Parser_hasNoErrors : List String := [
+  "return len(p.errors) == 0"]
+
+/-- after fixes/C20-scanner-nul-rune.patch: body of `Scanner.NextToken` in tools/goctl/pkg/parser/api/scanner/scanner.go (literals verbatim) -/
+def x_Scanner_NextToken_patched : List String := [
+  "s.skipWhiteSpace()",
+  "switch s.ch {",
+  "case '/':",
+  "peekOne := s.peekRune()",
+  "switch peekOne {",
+  "case '/':",
+  "return s.scanLineComment(), nil",
+  "case '*':",
+  "return s.scanDocument()",
+  "default:",
+  "return s.newToken(token.QUO), nil",
+  "}",
+  "case '-':",
+  "return s.newToken(token.SUB), nil",
+  "case '*':",
+  "return s.newToken(token.MUL), nil",
+  "case '(':",
+  "return s.newToken(token.LPAREN), nil",
+  "case '[':",
+  "return s.newToken(token.LBRACK), nil",
+  "case '{':",
+  "return s.newToken(token.LBRACE), nil",
+  "case ',':",
+  "return s.newToken(token.COMMA), nil",
+  "case '.':",
+  "position := s.position",
+  "peekOne := s.peekRune()",
+  "if peekOne != '.' {",
+  "return s.newToken(token.DOT), nil",
+  "}",
+  "s.readRune()",
+  "peekOne = s.peekRune()",
+  "if peekOne != '.' {",
+  "return s.newToken(token.DOT), nil",
+  "}",
+  "s.readRune()",
+  "s.readRune()",
+  "return token.Token{ Type: token.ELLIPSIS, Text: \"...\", Position: s.newPosition(position), }, nil",
+  "case ')':",
+  "return s.newToken(token.RPAREN), nil",
+  "case ']':",
+  "return s.newToken(token.RBRACK), nil",
+  "case '}':",
+  "return s.newToken(token.RBRACE), nil",
+  "case ';':",
+  "return s.newToken(token.SEMICOLON), nil",
+  "case ':':",
+  "return s.newToken(token.COLON), nil",
+  "case '=':",
+  "return s.newToken(token.ASSIGN), nil",
+  "case '@':",
+  "return s.scanAt()",
+  "case '\"':",
+  "return s.scanString('\"', token.STRING)",
+  "case '`':",
+  "return s.scanString('`', token.RAW_STRING)",
+  "case 0:",
+  "if s.position < s.size {",
+  "return s.illegalToken(), nil",
+  "}",
+  "return token.EofToken, nil",
+  "default:",
+  "if s.isIdentifierLetter(s.ch) {",
+  "return s.scanIdent(), nil",
+  "}",
+  "if s.isDigit(s.ch) {",
+  "return s.scanIntOrDuration(), nil",
+  "}",
+  "tok := token.NewIllegalToken(s.ch, s.newPosition(s.position))",
+  "s.readRune()",
+  "return tok, nil",
+  "}"]
+
+/-- after fixes/C20-scanner-nul-rune.patch: switch of Scanner.NextToken -/
+def scannerTable_nulpatched : List String := [
+  "'/' => …",
+  "'-' => return s.newToken(token.SUB), nil",
+  "'*' => return s.newToken(token.MUL), nil",
+  "'(' => return s.newToken(token.LPAREN), nil",
+  "'[' => return s.newToken(token.LBRACK), nil",
+  "'{' => return s.newToken(token.LBRACE), nil",
+  "',' => return s.newToken(token.COMMA), nil",
+  "'.' => …",
+  "')' => return s.newToken(token.RPAREN), nil",
+  "']' => return s.newToken(token.RBRACK), nil",
+  "'}' => return s.newToken(token.RBRACE), nil",
+  "';' => return s.newToken(token.SEMICOLON), nil",
+  "':' => return s.newToken(token.COLON), nil",
+  "'=' => return s.newToken(token.ASSIGN), nil",
+  "'@' => return s.scanAt()",
+  "'\"' => return s.scanString('\"', token.STRING)",
+  "'`' => return s.scanString('`', token.RAW_STRING)",
+  "0 => …",
+  "default => …"]
+
 end GoZero.C20.Ref
